@@ -2,7 +2,7 @@
 """Rebuild the seed matrix table of DESIGN.md §11.9 from selftest/matrix_*.txt (first result per seed = first pass, last = now)."""
 import json, os, re
 HERE = os.path.dirname(os.path.dirname(os.path.abspath(__file__)))
-files = ["matrix_pass1.txt", "matrix_pass2.txt", "matrix_pass3a.txt", "matrix_pass3b.txt", "matrix_later.txt"]
+files = ["matrix_pass1.txt", "matrix_pass2.txt", "matrix_pass3a.txt", "matrix_pass3b.txt", "matrix_later.txt", "matrix_pass4.txt", "matrix_later2.txt"]
 res = {}
 for f in files:
     p = os.path.join(HERE, "selftest", f)
@@ -40,7 +40,7 @@ a = s.index("<!-- MATRIX-BEGIN -->")
 b = s.index("<!-- MATRIX-END -->")
 head = (f"{n} seeded changes, each run against the quick tier of the check of ITS OWN property (`selftest/matrix.sh`; raw lines in `selftest/matrix_*.txt`).  "
         f"'first run' = the machinery as it was when the seed was first tried (m1-m4: the first complete MANIFEST; m5/m6: after the strengthening that m1-m4 "
-        f"prompted): {c1}/{n} caught.  Now: {c2}/{n} caught, {len(e3)} 'exit 3' (the check says nothing: unsupported construct / inconclusive -- never a pass), "
+        f"prompted; m7/m8: after the strengthening that m5/m6 prompted): {c1}/{n} caught.  Now: {c2}/{n} caught, {len(e3)} 'exit 3' (the check says nothing: unsupported construct / inconclusive -- never a pass), "
         f"{len(mi)} missed.\n\n")
 s = s[:a] + "<!-- MATRIX-BEGIN -->\n" + head + "\n".join(rows) + "\n" + s[b:]
 open(os.path.join(HERE, "DESIGN.md"), "w").write(s)
